@@ -272,3 +272,26 @@ def flatten_xor(e):
     if e[0] == 'call' and e[1] == 'BitXor' and len(e[2]) == 2:
         return flatten_xor(e[2][0]) + flatten_xor(e[2][1])
     return [e]
+
+
+def fold(e):
+    """the expression with every constant integer sub-expression replaced by its value (`MulWithOverflow(1, 4).0` -> 4)"""
+    k = e[0]
+    if k in ('int', 'sym'):
+        return e
+    v = ev(e, {})
+    if v is not None and k in ('call', 'cast'):
+        return ('int', v)
+    if k == 'call':
+        return ('call', e[1], [fold(a) for a in e[2]], e[3])
+    if k == 'aggr':
+        return ('aggr', e[1], [fold(a) for a in e[2]])
+    if k == 'idx':
+        return ('idx', fold(e[1]), fold(e[2]), e[3])
+    if k == 'cast':
+        return ('cast', fold(e[1]), e[2])
+    if k == 'phi':
+        return ('phi', [fold(a) for a in e[1]])
+    if k == 'ver':
+        return ('ver', fold(e[1]), e[2])
+    return e
